@@ -1020,3 +1020,25 @@ Proof.
       destruct (Z.eqb_spec (s_wg (nth s (scopes (sh st)) dscope)) 0); auto. lia.
     + unfold gets in T. rewrite nth_overflow in T by lia. simpl in T. lia.
 Qed.
+
+Lemma accessors sh b c s :
+  exec cfg_current b (IErr c) sh = XOk sh [] [OBool (negb (isnil (c_errors (getc sh c))))] [] [] /\
+  (valids sh s = true -> s_wg (gets sh s) = 0%Z ->
+   exec cfg_current b (IWait s) sh = xpush sh [IErr (s_ctx (gets sh s))]) /\
+  (s_pc (gets sh s) = CRet ->
+   close_step cfg_current sh s =
+   XOk (set_pc sh s CFinished) [] [OClosed s (negb (isnil (errs_of sh s)))] [] []).
+Proof.
+  split; [reflexivity|]. split.
+  - intros V W. simpl. rewrite V, W. reflexivity.
+  - intros P. unfold close_step. rewrite P. reflexivity.
+Qed.
+
+Lemma done_once progs :
+  (forall s1 s2 c, c_done (getc (sh (run cfg_current s1 (init progs))) c) = true ->
+                   c_done (getc (sh (run cfg_current (s1 ++ s2) (init progs))) c) = true) /\
+  (forall sched th c es, let st := run cfg_current sched (init progs) in
+     In th (ths st) -> In (c, es) (t_acks th) -> c_done (getc (sh st) c) = true).
+Proof.
+  split. exact (done_monotone cfg_current progs). exact (acked_done cfg_current progs).
+Qed.
